@@ -1140,4 +1140,93 @@ theorem window_zero_is_vacuous :
     (24 * I2N.Trav.Global.resultBound gDuo + gDuo.workers.length + 1) * 0 ≤ ([] : List I2N.Trav.GlobalN.StepN).length ∧
     pcIsDone ((I2N.Trav.GlobalN.runStepsN gDuo (initState gDuo 2 []) []).wd 0).pc = false := by decide +kernel
 
+/-! ### the same with a virtual clock instead of windows
+
+`Fair.Timed g q T wake s steps` (an inductive predicate over the list of resumes; decidable): the event-driven scheduler of
+`asyncio` under virtual time.  `wake v` = the time at which worker `v` is due; every entry of the run is a resume
+`(worker, outcome, fuel)` together with the duration `d` of the suspension the step ENDS in; the resumed worker is not over
+and is due first among the workers that are not over (ties: any); a step that ends in the back-off sleep has `q ≤ d` (the
+code sleeps `max(timeout·max_tries/1000, 0.1)` s: `q = 10` hundredths); a step that ends inside a test — start of a test or
+of a creation pre-step, a tick of the result wait — has `d ≤ T` (every started test ends, with any status or none, and the
+task returns within `T`; the ticks sleep 30 s); afterwards `wake w := wake w + d`. -/
+
+open I2N.Trav.Term I2N.Trav.Global I2N.Trav.GlobalN I2N.Trav.Fair in
+/-- **timed_bounces_bounded**: along every timed run from the initial state (static hypotheses of
+`fair_window_has_progress`, `0 < q`), every stretch of `|workers|·(T/q + 1) + 1` consecutive resumes that ends with somebody
+not over and nobody dead contains a productive step (`Fair.Lively`): at most `|workers|·(T/q + 1)` consecutive resumes are
+back-off steps.
+Why: if nobody is inside a test the next resume does not end asleep (`bounce_only_while_someone_runs`).  Otherwise let `v`
+be inside a test: `wake v ≤ wake u + T` for every `u` that is not over (invariant `Fair.Due`: `v` was due first when it
+started and the clock of the others only advances); a worker `u` is resumed only while `wake u ≤ wake v`, and every back-off
+step adds at least `q` to `wake u`, so `Σ_u ⌊(wake v + q − wake u)/q⌋ ≤ |workers|·(T/q + 1)` falls with every back-off
+step (`Fair.backoff_stretch_le`), and the resume of `v` itself is productive. -/
+theorem timed_bounces_bounded (g : Graph) (hr : rankedB g = true) (hsym : edgeSymB g = true)
+    (hflat : noFlatB g = true) (hwf : graphWF g = true) (ncls : Nat)
+    (hcls : ∀ n, n < g.nodes.length → (g.node n).cls < ncls)
+    (store : List (String × List (String × String))) (q T : Nat) (hq : 0 < q) (wake : Nat → Nat) (steps : List TStepN)
+    (hreal : ∀ x ∈ steps.map (·.1), x.1 < g.workers.length) (hfuel : ∀ x ∈ steps.map (·.1), bound g ≤ x.2.2)
+    (hcalm : BumpFree g (initState g ncls store) (steps.map (·.1)))
+    (ht : Timed g q T wake (initState g ncls store) steps) :
+    Lively g (g.workers.length * (T / q + 1) + 1) (initState g ncls store) (steps.map (·.1)) := by
+  have hd : Due g T wake (initState g ncls store []) := by
+    intro v u _ _ htv _
+    rw [init_pc] at htv; cases htv
+  exact timed_lively ⟨hr, hsym, hflat, hwf, hcls⟩ q T hq steps wake _ (ginvN_init g ncls store)
+    (runOK_of g _ _ hreal hfuel hcalm) ht hd
+
+open I2N.Trav.Term I2N.Trav.Global I2N.Trav.GlobalN I2N.Trav.Fair in
+/-- **multi_worker_terminates_timed** (`_partial`: class hypotheses, no bump).  Hypotheses of
+`multi_worker_terminates_fair_partial` with the clock (`Timed`, back-off sleeps of at least `q > 0`, every suspension inside
+a test of at most `T`) in place of the windows.  Then a run after which somebody is not over and nobody is dead has FEWER
+than `(24·Σ_n max(max_tries n, 1) + |workers| + 1)·(|workers|·(T/q + 1) + 1)` resumes — within that many resumes every
+worker is `done`, or some worker is `failed`.  (Stated in this form because a timed run does not resume finished workers:
+it cannot be longer once everybody is over.)
+`0 < q` cannot be dropped: with sleeps of no duration a worker is due again at once and bounces any number of times at one
+virtual instant while the test of the other is pending (not `decide`d: the second sleep at one node evaluates a `Float`
+comparison); `T` bounds the time a started test and each tick of the result wait take — without it the waiting workers
+sleep unboundedly often.  MISSING: as for `multi_worker_terminates_fair_partial`. -/
+theorem multi_worker_terminates_timed_partial (g : Graph) (hr : rankedB g = true) (hsym : edgeSymB g = true)
+    (hflat : noFlatB g = true) (hwf : graphWF g = true) (ncls : Nat)
+    (hcls : ∀ n, n < g.nodes.length → (g.node n).cls < ncls) (hroots : noRootsB g = true) (hcl : classesOKB g = true)
+    (store : List (String × List (String × String))) (q T : Nat) (hq : 0 < q) (wake : Nat → Nat) (steps : List TStepN)
+    (hreal : ∀ x ∈ steps.map (·.1), x.1 < g.workers.length) (hfuel : ∀ x ∈ steps.map (·.1), bound g ≤ x.2.2)
+    (hcalm : BumpFree g (initState g ncls store) (steps.map (·.1)))
+    (ht : Timed g q T wake (initState g ncls store) steps)
+    (halive : Alive g (runStepsN g (initState g ncls store) (steps.map (·.1)))) :
+    steps.length < (24 * resultBound g + g.workers.length + 1) * (g.workers.length * (T / q + 1) + 1) := by
+  apply Nat.lt_of_not_le
+  intro hlen
+  exact timed_run_over ⟨hr, hsym, hflat, hwf, hcls⟩ hroots hcl store q T hq wake steps
+    (runOK_of g _ _ hreal hfuel hcalm) ht hlen halive
+
+/-- `gDuo` under the clock: worker 0 starts its test at time 0 (it takes 0.1 s), worker 1 finds the class occupied and sleeps
+0.1 s; both are due at 0.1 s: worker 0 passes and leaves, worker 1 wakes up and leaves -/
+def timedRunOfGDuo : List I2N.Trav.Fair.TStepN :=
+  [((0, ⟨none, 0⟩, 82), 10), ((1, ⟨none, 0⟩, 82), 10), ((0, ⟨some "PASS", 1⟩, 82), 0), ((1, ⟨none, 0⟩, 82), 0)]
+
+/-- non-vacuity: the run is timed with `q = T = 10` (hundredths of a second), bumps nothing, its second step is a back-off
+step, after two steps somebody is not over and nobody is dead, and it ends with both workers done -/
+example : I2N.Trav.Fair.Timed gDuo 10 10 (fun _ => 0) (initState gDuo 2 []) timedRunOfGDuo ∧
+    I2N.Trav.Fair.bumpFreeB gDuo (initState gDuo 2 []) (timedRunOfGDuo.map (·.1)) = true ∧
+    pcIsBounce ((I2N.Trav.GlobalN.runStepsN gDuo (initState gDuo 2 []) ((timedRunOfGDuo.take 2).map (·.1))).wd 1).pc = true ∧
+    pcIsDone ((I2N.Trav.GlobalN.runStepsN gDuo (initState gDuo 2 []) (timedRunOfGDuo.map (·.1))).wd 0).pc = true ∧
+    pcIsDone ((I2N.Trav.GlobalN.runStepsN gDuo (initState gDuo 2 []) (timedRunOfGDuo.map (·.1))).wd 1).pc = true := by
+  decide +kernel
+theorem gDuo_alive_after_two : I2N.Trav.Fair.Alive gDuo
+    (I2N.Trav.GlobalN.runStepsN gDuo (initState gDuo 2 []) ((timedRunOfGDuo.take 2).map (·.1))) := by
+  refine ⟨⟨0, by decide, by decide +kernel⟩, fun v hv => ?_⟩
+  have hv2 : v < 2 := hv
+  have h : ∀ u, u < 2 → ((I2N.Trav.GlobalN.runStepsN gDuo (initState gDuo 2 [])
+      ((timedRunOfGDuo.take 2).map (·.1))).wd u).pc.isFailed = false := by decide +kernel
+  intro e
+  have := h v hv2
+  rw [e] at this
+  cases this
+example := timed_bounces_bounded gDuo (by decide) (by decide) (by decide) (by decide) 2 (by decide) [] 10 10 (by decide)
+  (fun _ => 0) timedRunOfGDuo (by decide +kernel) (by decide +kernel)
+  (I2N.Trav.Fair.bumpFree_of_B _ _ _ (by decide +kernel)) (by decide +kernel)
+example := multi_worker_terminates_timed_partial gDuo (by decide) (by decide) (by decide) (by decide) 2 (by decide)
+  (by decide) (by decide +kernel) [] 10 10 (by decide) (fun _ => 0) (timedRunOfGDuo.take 2) (by decide +kernel)
+  (by decide +kernel) (I2N.Trav.Fair.bumpFree_of_B _ _ _ (by decide +kernel)) (by decide +kernel) gDuo_alive_after_two
+
 end I2N.Props.C02
